@@ -17,6 +17,7 @@ structure DSt where
   down : Bool := false
   apiMode : Bool := false
   mgmt : Bool := false
+  shortStop : Bool := false        -- `stoptimeout short`: held work that does not wait for the module context outlives the stop timeout
   deriving Inhabited
 
 def pvOf : String → Option PCls
@@ -186,7 +187,7 @@ def setHeld (ids : List (String × Bool × Bool)) (i : Nat) (h : Bool) : List (S
 
 /-- The subject module stops: stop program on its own managed state; items waiting for the module
     context (`onstop`) end when it is cancelled. -/
-def stopSubject (d : DSt) (fn : Option Outcome) : DSt × (CtrlRet × List Report) :=
+def stopSubject (d : DSt) (fn : Option Outcome) : DSt × (CtrlRet × List Report) × Bool :=
   let n := d.st.items.length
   let it : Item := { kind := .stop, outs := (match fn with | some o => [o] | none => []), hasFn := fn.isSome }
   -- the reports of this stop are collected on a channel of their own and pushed, in the order of the pass,
@@ -194,32 +195,44 @@ def stopSubject (d : DSt) (fn : Option Outcome) : DSt × (CtrlRet × List Report
   let s0 := { d.st with items := d.st.items ++ [it], chanSet := true, cap := 1 <<< 20, feed := [], taken := 0, waiting := 0, dropped := 0 }
   let before := 0
   let s1 := runHeld 16 s0 n
-  -- release every held item (all of them wait for ctx.Done())
-  let s2 := (List.range n).foldl (fun s i => finishItem s i) s1
+  -- release every held item that waits for ctx.Done() (without `stoptimeout short` scenarios stop the subject only
+  -- when all of them do); the others stay inside their function and outlive the stop timeout
+  let lingers := fun (i : Nat) => d.shortStop && (match d.ids[i]? with
+    | some (_, held, os) => held && !os
+    | none => false)
+  let s2 := (List.range n).foldl (fun s i => if lingers i then s else finishItem s i) s1
   let s3 := (List.range n).foldl (fun s i => runHeld 16 s i) s2
   let s4 := runHeld 16 (finishItem s3 n) n
-  let cret := (s4.items[n]?.bind (fun it => if it.sent then it.cret else none)).getD .nil
+  -- the wait of stopAllTasks ends: by completion if the channel was closed, else by the stop timeout; the result
+  -- of the stop routine is fetched into the error of the report
+  let timedOut := !s4.stopCompleted
+  let s4 := (step s4 (.stopper n timedOut)).getD s4
+  let cret := (s4.items[n]?.map (·.passErr)).getD .nil
   -- the stop item is not a scenario item: remove it again
-  let s5 := { s4 with items := s4.items.take n, stopFlag := false, ctxDone := false, chanSet := d.st.chanSet, cap := d.st.cap, feed := d.st.feed, taken := d.st.taken, waiting := d.st.waiting, dropped := d.st.dropped, last := d.st.last }
-  ({ d with st := s5, ids := d.ids.map fun (id, _, os) => (id, false, os) }, (cret, s4.feed.drop before))
+  -- (the flags of the stopped module matter only to work that outlived the stop: they stay set until the module is
+  -- started again — a service worker that ends a run after the stop leaves its loop)
+  let s5 := { s4 with items := s4.items.take n, stopFlag := timedOut, ctxDone := timedOut, chanSet := d.st.chanSet, cap := d.st.cap, feed := d.st.feed, taken := d.st.taken, waiting := d.st.waiting, dropped := d.st.dropped, last := d.st.last }
+  ({ d with st := s5, ids := d.ids.map fun (id, held, os) => (id, d.shortStop && held && !os, os) },
+   (cret, s4.feed.drop before), timedOut)
 
 /-- A stop pass over all modules; the subject's own stop runs on the scenario state. -/
-def stopPass (d : DSt) (keep : Mod → Bool) : DSt × List CtrlRet × List Report :=
+def stopPass (d : DSt) (keep : Mod → Bool) : DSt × List CtrlRet × List Report × List String :=
   -- run rounds with a pure stop function, then redo the subject's stop on the real state
   let subj := subjectName d
   let stopsSubject := d.mods.any fun m => m.name == subj && !keep m && m.status == 5
-  let (d1, subjRes) :=
+  let (d1, subjRes, tmo) :=
     if stopsSubject then
       match d.mods.find? (·.name == subj) with
-      | some m => let (d', r) := stopSubject d m.stop; (d', some r)
-      | none => (d, none)
-    else (d, none)
+      | some m => let (d', r, t) := stopSubject d m.stop; (d', some r, if t then [subj] else [])
+      | none => (d, none, [])
+    else (d, none, [])
+  -- the other modules have no work of their own: their stop completes
   let stopOf := fun (m : Mod) =>
-    if m.name == subj then (match subjRes with | some r => r | none => runCtrl .stop m.stop) else runCtrl .stop m.stop
+    if m.name == subj then (match subjRes with | some r => r | none => runStop m.stop false) else runStop m.stop false
   let out := passRounds (d.mods.length + 1) false (stopRound keep stopOf) { mods := d1.mods }
   -- reports of the subject's stop are already in the feed; push the others in order
   let d2 := { d1 with mods := out.mods }
-  (d2, out.rets, out.reps)
+  (d2, out.rets, out.reps, tmo)
 
 /-- Run item `i` through all of its runs (free-running burst item). -/
 def runThrough (fuel : Nat) (s : St) (i : Nat) : St :=
@@ -292,6 +305,10 @@ def handle (d : DSt) (line : String) : DSt × String :=
       | [n, "on"] => some n
       | _ => none
     ({ d with mgmt := true, mods := d.mods.map fun m => { m with enabled := on.contains m.name } }, "ok")
+  | ["stoptimeout", "short"] =>
+    -- the modules' stop timeout is set to a short value: held work that does not wait for the module context does not
+    -- keep `shutdown` / `manage` from being run; the stop of its module ends by the timeout
+    if d.started || d.apiMode || d.shortStop then (d, "bad-op") else ({ d with shortStop := true }, "ok")
   | ["devmode", v] =>
     -- config.SetConfigOption("core/devMode", …); not while a request is in flight (the option is read when the handler panics)
     if !d.apiMode || !d.startOK || d.down || !(v == "on" || v == "off") || d.ids.any (fun (_, held, _) => held) then (d, "bad-op")
@@ -363,26 +380,30 @@ def handle (d : DSt) (line : String) : DSt × String :=
     if !d.started || !d.mgmt then (d, "bad-op") else
     let n := d.mods.length + 1
     let needed := neededDeps n d.mods []
-    let (d1, srets, sreps) := stopPass d (fun m => wanted true needed m)
+    let (d1, srets, sreps, tmo) := stopPass d (fun m => wanted true needed m)
     let starts := passRounds n true (startRound true needed) { mods := d1.mods }
+    -- start() of the subject installs a fresh context and clears the stop flag
+    let d1 := if statusOf starts.mods (subjectName d) == 5 then { d1 with st := { d1.st with stopFlag := false, ctxDone := false } } else d1
     -- reports of the subject's own stop are already in the feed
     let d2 := pushReports { d1 with mods := starts.mods } (sreps ++ starts.reps)
     let (d3, reps) := drain d2
-    (d3, s!"manage ret={ctrlRetStr (manageResult srets starts.rets)} reps={sortedRepsStr reps} st={statusesStr d3.mods} ch={chLen d3.st}")
+    let tmoStr := if d.shortStop then s!" tmo={if tmo.isEmpty then "-" else ",".intercalate tmo}" else ""
+    (d3, s!"manage ret={ctrlRetStr (manageResult srets starts.rets)} reps={sortedRepsStr reps} st={statusesStr d3.mods} ch={chLen d3.st}{tmoStr}")
   | ["shutdown"] =>
     if !d.started then (d, "bad-op") else
     -- work that does not wait for the module context would keep Shutdown waiting for the stop timeout
-    if d.ids.any (fun (_, held, os) => held && !os) then ({ d with down := true }, "shutdown-with-held-work") else
+    if !d.shortStop && d.ids.any (fun (_, held, os) => held && !os) then ({ d with down := true }, "shutdown-with-held-work") else
     if d.apiMode then
-      let (d1, _) := stopSubject d none
+      let (d1, _, _) := stopSubject d none
       let (d2, reps) := drain d1
       ({ d2 with down := true }, s!"shutdown ret=nil reps={sortedRepsStr reps} slow=no st= ch={chLen d2.st}")
     else
-    let (d1, srets, sreps) := stopPass d (fun _ => false)
+    let (d1, srets, sreps, tmo) := stopPass d (fun _ => false)
     let d2 := pushReports d1 sreps
     let (d3, reps) := drain d2
+    let tmoStr := if d.shortStop then s!" tmo={if tmo.isEmpty then "-" else ",".intercalate tmo}" else ""
     ({ d3 with down := true },
-     s!"shutdown ret={ctrlRetStr (shutdownResult srets)} reps={sortedRepsStr reps} slow=no st={statusesStr d3.mods} ch={chLen d3.st}")
+     s!"shutdown ret={ctrlRetStr (shutdownResult srets)} reps={sortedRepsStr reps} slow=no st={statusesStr d3.mods} ch={chLen d3.st}{tmoStr}")
   | "burst" :: a :: as => burst d (a :: as)
   | ["status"] => (d, s!"cnt={cntStr d.st} last={lastStr d.st.last} ch={chLen d.st}")
   | ["recvn"] =>
